@@ -31,6 +31,13 @@ class HarnessCrash(ToolError):
     """the harness process died (abort / signal): the code under test brought the process down"""
 
 
+class HarnessHang(ToolError):
+    """a call into the code under test did not return within the time budget (harness exit 98)"""
+    def __init__(self, msg, info):
+        super().__init__(msg)
+        self.info = info
+
+
 def log(*a):
     print(*a, file=sys.stderr, flush=True)
 
@@ -77,6 +84,15 @@ def jsv(args, timeout=3600, stdin=None, seed_offset=0):
     for line in p.stdout.split('\n'):
         if line.startswith('SUMMARY '):
             summary = json.loads(line[8:])
+    if p.returncode == 98:
+        info = {}
+        for line in p.stdout.split('\n'):
+            if line.startswith('HANG '):
+                try:
+                    info = json.loads(line[5:])
+                except ValueError:
+                    info = {'context': line[5:300]}
+        raise HarnessHang(f'a call into the code under test did not return: jsv {" ".join(map(str, args))}', info)
     if p.returncode < 0 or p.returncode in (101, 134, 139):
         raise HarnessCrash(f'harness crashed (exit {p.returncode}): jsv {" ".join(map(str, args))}\n' + p.stderr[-600:])
     if p.returncode != 0 or summary is None:
